@@ -570,6 +570,32 @@ def m_concat(I, st, info, args, depth):
     return ret(st, Seq("concat", ln, None, chunks, kind=kind))
 
 
+@imodel(r"^alloc::slice::<impl \[T\]>::join$|^alloc::slice::Join::join$")
+def m_join(I, st, info, args, depth):
+    """[a, b, ..].join(sep): the pieces with the separator between neighbours (texts and byte strings)"""
+    x = deref(I, st, args[0])
+    sep = deref(I, st, args[1]) if len(args) > 1 else None
+    pc = I.resolve(st, args[1]) if len(args) > 1 else None
+    if isinstance(pc, Aff) and pc.is_const():
+        sep = StrV(chr(pc.const))
+    if not (isinstance(x, Seq) and x.elems is not None and isinstance(sep, (StrV, Seq))):
+        return None
+    evs = [deref(I, st, e) for e in x.elems]
+    if all(isinstance(ev, StrV) and isinstance(ev.s, str) for ev in evs + [sep]):
+        return ret(st, StrV(sep.s.join(ev.s for ev in evs)))
+    chunks, ln = [], Aff(0)
+    for i, ev in enumerate(evs):
+        if not isinstance(ev, (Seq, StrV)):
+            return None
+        for piece in ([sep] if i else []) + [ev]:
+            c, l = MD.seq_chunks(I, st, piece)
+            if isinstance(piece, Seq) and piece.chunks is None and piece.elems is None:
+                c = [("arg", piece)]
+            chunks += c
+            ln = ln.add(l)
+    return ret(st, Seq("joined", ln, None, chunks, kind="str"))
+
+
 # ------------------------------------------------------------------ concrete maps
 def map_insert(I, st, m, k, v):
     ents = _entries(m)
